@@ -152,9 +152,10 @@ def evaluate(ctx, cases):
             scheds = set(itertools.permutations("AAABBB"))
             if ctx.tier == "quick":
                 scheds = ctx.rng.sample(sorted(scheds), 6)
-            for sched in scheds:
+            # ... over two documents, and over one and the same document object
+            for sched, second in [(sc, 1) for sc in scheds] + [(sc, 0) for sc in sorted(scheds)[:4]]:
                 try:
-                    ia, ib = iter(qon.finditer(docs[0], filter_context=extra)), iter(qon.finditer(docs[1], filter_context=extra))
+                    ia, ib = iter(qon.finditer(docs[0], filter_context=extra)), iter(qon.finditer(docs[second], filter_context=extra))
                     ga, gb = [], []
                     for s in sched:
                         it, acc = (ia, ga) if s == "A" else (ib, gb)
@@ -169,8 +170,9 @@ def evaluate(ctx, cases):
                     ctx.violation("interleaved iteration raised", {**inp, "schedule": "".join(sched)}, core.exc_name(e), "results")
                     break
                 ctx.count("interleavings")
-                if ga != ref[0] or gb != ref[1]:
-                    ctx.violation("lazy iterators from the same compiled query advanced in any interleaving must each yield their own result", {**inp, "schedule": "".join(sched)}, [ga[:4], gb[:4]], [ref[0][:4], ref[1][:4]])
+                if ga != ref[0] or gb != ref[second]:
+                    ctx.violation("lazy iterators from the same compiled query advanced in any interleaving must each yield their own result",
+                                  {**inp, "schedule": "".join(sched), "second_iterator_over": "another document" if second else "the same document object"}, [ga[:4], gb[:4]], [ref[0][:4], ref[second][:4]])
                     break
         # two lazy iterators over the SAME document object with different filter contexts, caching on and off
         if "_" in text and not isinstance(ref[0], dict):
